@@ -119,7 +119,7 @@ def check_positions(snap, b, originals):
             return f"position {i}: new node is not registered under its id"
         for k, v in props.items():
             w = getattr(n, k)
-            if not zoo.val_eq(v, w) and not (isinstance(v, float) and v == w):
+            if not zoo.val_eq(v, w):
                 return f"position {i}: property {k} {w!r} != {v!r}"
         if not (type(n.origin) is type(origin) and n.origin == origin):
             return f"position {i}: origin {n.origin!r} != {origin!r}"
@@ -137,6 +137,10 @@ def cases(rng: random.Random, tier: str):
         g.origin = lambda: rich_origin(rng)
         t0 = g.tree(rng.choice([1, 3, 6, 12, 25]))
         g.pool.clear()
+        if rng.random() < 0.5:
+            # values that are == to the declared default of their field but not the default itself (1.0 for `int | float = 1`)
+            t0 = zoo.Tup((t0, zoo.PropZoo(num=rng.choice([1.0, 1, 2.5]), o=rng.choice([None, 0]), hidden=rng.randint(0, 1),
+                                          origin=rich_origin(rng))))
         twins = rng.random() < 0.5
         a = t0.duplicate() if twins else t0      # with twins registered outside, ids carry _1 suffixes
         if not twins:
